@@ -10,7 +10,7 @@ cd $W || exit 2
 git stash -q 2>/dev/null; git checkout -q -- . ; git stash drop -q 2>/dev/null
 git apply --check $S/patch.diff || { echo "patch does not apply"; exit 2; }
 run_demo() {
-  if [ -d $S/demo ]; then (cd $S/demo && cargo test --offline 2>&1 | tail -5 | grep -E "^test result|error" | head -3)
+  if [ -d $S/demo ]; then (cd $S/demo && cargo test --offline 2>&1 | grep -E "^test result|^error" | awk '/^test result/ {p+=$4; f+=$6} /^error/ {e=e" "$0} END {print "passed="p" failed="f e}')
   else cp $S/seed_demo.rs $W/epserde/tests/seed_demo.rs; (cd $W && cargo test --offline -p epserde --test seed_demo 2>&1 | grep -E "^test result|^error" | head -3); fi
 }
 echo "== demo on the ORIGINAL code (must pass)"; R0=$(run_demo); echo "$R0"
